@@ -5,6 +5,7 @@ import Proofs.ProbingBuildRep
 import Proofs.ProbingBuildBlank
 import Proofs.ProbingBuildRepG
 import Proofs.ProbingBuildBlank2
+import Proofs.ProbingBuildChainStep
 import Properties.C03
 /-! C03/C01 — the probing *builder* inside the model (`Model/ProbingBuild.lean` = lm/search_hashed.cc ReadNGrams,
 FindLower, AdjustLower, MarkLower, activate, unigram sign fix, missing-`<unk>` fix-up).
@@ -12,8 +13,10 @@ FindLower, AdjustLower, MarkLower, activate, unigram sign fix, missing-`<unk>` f
 Status: the executable model is tied entry by entry to the real `ProbingModel`/`RestProbingModel` structure (stream
 `probing-structure`, every n-gram and every blank of every generated ARPA) and its result is checked at run time
 against `Table.build a` (`prep` flag of the driver) — on every generated model, blanks included.  Proved here: the
-table-operation layer with its error classes (general), and the complete fold for bigram models.  Not proved:
-`ProbingBuildRepresents` for models that need blanks (SRI-pruned; blank chains in `FindLower`/`AdjustLower`). -/
+table-operation layer with its error classes (general); the complete fold and `Represents` for every file whose blanks are
+single-level (`probing_build_represents_single`, `probing_end_to_end_single`); for blank chains of any length the
+operational half of the per-line step (`probing_chain_line_partial`).  Not proved: `ProbingBuildRepresents` for files
+with blank chains of length ≥ 2 (remaining: the key-level evaluation of `chainWant`, see design_notes/C03.md round 8). -/
 namespace KV.C03ProbingBuild
 open KV.Arpa KV.Table KV.Score KV.State KV.ProbingLM KV.ProbingBuild
 
@@ -277,5 +280,32 @@ example : (KV.Table.build demoPruned).lookup [4,3] = some ⟨-1/8 + -3, 0, true,
 example : (match build cmb false demoPruned 5 [4, 4, 4] (-100) with
     | .ok st => repCheck cmb demoPruned st
     | .error _ => false) = true := by decide +kernel
+
+/-- **Blank chains of any length, operational half (partial).**  A line `p` of order `b+L+1` whose reversed prefixes of
+orders `b+1 .. b+L` are not stored (`L ≥ 1` blanks to hallucinate) and whose prefix of order `b` is (or `b = 1`, the
+unigram): from any state satisfying the blank-aware invariant `InvG`, `addLine` succeeds, appends exactly the `L` blanks
+and the line to their tables, and leaves in every table and in the unigram array the payloads `chainWant`: the blank
+probabilities filled bottom-up from the basis (`fillUs`: `prob += backoff(context)` per level, with `SetExtension` on the
+context), the sign bit cleared along the chain (`chainKeys`), and the extension mark on the line's context.  Proved by
+induction over the loops of `FindLower`, `AdjustLower` (both the unigram-basis and the middle-basis branch) and
+`MarkExtends`.  Not yet proved: that `chainWant` agrees with `wantW a (addLineKeys S p)` on the stored keys (a statement
+about keys only, no tables), which is what `StepOK … (fun _ => True)` needs; see design_notes/C03.md, round 8. -/
+theorem probing_chain_line_partial (combine : Nat → Word → Nat) (a : Arpa) (u0 : List W) (N : Nat) (caps : Nat → Nat)
+    (S : List Key) (s : St) (inv : InvG combine a u0 N caps S s) (si : SInv a S) (p : Key) (e : Entry)
+    (lc : LC combine a u0 N caps S p e) (b L : Nat) (hb : 1 ≤ b) (hL : 1 ≤ L) (hpl : p.length = b + L + 1)
+    (hbasis : b = 1 ∨ p.take b ∈ S) (hmiss : ∀ j, b < j → j ≤ b + L → p.take j ∉ S)
+    (hcapn : (keysOf S (b + L + 1)).length + 1 < caps (b + L + 1))
+    (hcapj : ∀ j, b < j → j ≤ b + L → (keysOf S j).length + 1 < caps j) :
+    ∃ s' Ks' want1, addLine combine false N s p e = .ok s' ∧
+      (∀ m, Ks' m = if b < m ∧ m ≤ b + L then keysOf (S ++ [p]) m ++ [p.take m] else keysOf (S ++ [p]) m) ∧
+      (∀ k, want1 k = if b < k.length ∧ k.length ≤ b + L ∧ k = p.take k.length then blankW
+        else updW (wantAll a u0 S) p (lineW e) k) ∧
+      StP combine N caps u0.length s' Ks' (chainWant want1 p b L) :=
+  addLine_chain combine a u0 N caps S s inv si p e lc b L hb hL hpl hbasis hmiss hcapn hcapj
+
+/-- the final payload at a key is the composition, in order, of the updates addressed to it (used to evaluate `chainWant`) -/
+theorem chain_updates_eval (us : List (Key × (W → W))) (want : Key → W) (k : Key) :
+    applyUpd want us k = (us.filter (fun u => u.1 == k)).foldl (fun w u => u.2 w) (want k) :=
+  applyUpd_eval us want k
 
 end KV.C03ProbingBuild
